@@ -134,6 +134,7 @@ func run(seed int64, n int, dir string, _ []string) {
 	}
 	sigs := []string{"SIGINT", "SIGTERM", "SIGQUIT"}
 	obstacles(o, bin, scratch, mk)
+	vanishing(o, bin, scratch)
 
 	check := func(p prog, d string, before map[string]string, how string, r result) {
 		after := snapshot(d)
@@ -246,6 +247,67 @@ func run(seed int64, n int, dir string, _ []string) {
 }
 
 // listing renders a directory as name=kind:content (symlinks by their target, directories by "dir")
+// vanishing: the table a statement is waiting for disappears while it waits.  Process 1 holds a table it has
+// created (or locked) and is held (VERIF_PAUSE_AT) at the start of its forced release; process 2 starts a
+// statement on that table — it passes the existence check and waits for the lock; process 1 is let go and
+// removes / releases the table.  Whatever process 2 then reports, nothing of EITHER process may be left.
+func vanishing(o *hc.Out, bin, scratch string) {
+	cases := []struct{ name, p1, p2 string }{
+		{"created_then_error", "CREATE TABLE `n.csv` (a, b); INSERT INTO `n.csv` VALUES (1, 2); SELECT 1 / 0;", "INSERT INTO `n.csv` VALUES (3, 4);"},
+		{"created_then_error_update", "CREATE TABLE `n.csv` (a, b); INSERT INTO `n.csv` VALUES (1, 2); SELECT 1 / 0;", "UPDATE `n.csv` SET a = 9;"},
+		{"created_then_error_read", "CREATE TABLE `n.csv` (a, b); INSERT INTO `n.csv` VALUES (1, 2); SELECT 1 / 0;", "SELECT COUNT(*) FROM `n.csv`;"},
+		{"created_then_error_for_update", "CREATE TABLE `n.csv` (a, b); SELECT 1 / 0;", "SELECT * FROM `n.csv` FOR UPDATE;"},
+		{"updated_then_error", "UPDATE a SET v = 5; SELECT 1 / 0;", "DELETE FROM a WHERE id < 3;"},
+	}
+	for i, c := range cases {
+		d := filepath.Join(scratch, fmt.Sprintf("c11-van-%d", i))
+		_ = os.RemoveAll(d)
+		must(os.MkdirAll(d, 0o755))
+		must(os.WriteFile(filepath.Join(d, "a.csv"), []byte("id,v\n1,1\n2,2\n3,3\n"), 0o644))
+		gate := filepath.Join(scratch, fmt.Sprintf("c11-van-gate-%d", i))
+		_ = os.Remove(gate)
+		_ = os.Remove(gate + ".reached")
+		done := make(chan result, 1)
+		go func() { done <- csvq(bin, d, []string{"VERIF_PAUSE_AT=close.closefp#1:" + gate}, 0, 0, c.p1) }()
+		reached := false
+		for k := 0; k < 2000; k++ {
+			if _, err := os.Stat(gate + ".reached"); err == nil {
+				reached = true
+				break
+			}
+			time.Sleep(5 * time.Millisecond)
+		}
+		done2 := make(chan result, 1)
+		go func() { done2 <- csvq(bin, d, nil, 0, 0, "--wait-timeout", "5", c.p2) }()
+		time.Sleep(300 * time.Millisecond) // process 2 is past its existence check and waits for the lock
+		must(os.WriteFile(gate, nil, 0o644))
+		r1, r2 := <-done, <-done2
+		_ = os.Remove(gate)
+		_ = os.Remove(gate + ".reached")
+		after := snapshot(d)
+		var left []string
+		for _, nme := range names(after) {
+			if isControl(nme) {
+				left = append(left, nme)
+			}
+		}
+		rep := map[string]interface{}{"scenario": c.name, "first": c.p1, "second": c.p2, "first_held_before_release": reached, "first_output": r1.out, "second_output": r2.out, "second_rc": r2.rc, "files_after": names(after)}
+		if len(left) > 0 {
+			rep["leftover"] = left
+			o.Law("control_files_left_behind", rep)
+		}
+		if r1.rc == -2 || r2.rc == -2 {
+			o.Law("hang", rep)
+		}
+		if strings.Contains(r1.out+r2.out, "Fatal Error") || strings.Contains(r1.out+r2.out, "panic:") {
+			o.Law("internal_error_on_termination", rep)
+		}
+		o.Eval()
+		o.NonTrivial(fmt.Sprintf("vanishing:%s:%d:%v", c.name, r2.rc, reached))
+		_ = os.RemoveAll(d)
+	}
+}
+
 func listing(dir string) map[string]string {
 	m := map[string]string{}
 	ents, _ := os.ReadDir(dir)
